@@ -35,6 +35,7 @@ CONSTANTS
   NAttrs = 0
   NDimProps = 0
   NDimShapes = 0
+  NReadProps = 0
   NSnips = 0
   NCont = 0
   NBlk = 0
